@@ -223,7 +223,7 @@ func c16Check(c *core.Ctx, inputs []any) {
 func buildC16(tier string) *core.Plan {
 	n, n3 := 4, 2
 	if tier == "thorough" {
-		n, n3 = 5, 3
+		n3 = 3
 	}
 	trees := c15Trees(n)
 	nt := int64(len(trees))
@@ -238,6 +238,17 @@ func buildC16(tier string) *core.Plan {
 			c16Check(c, []any{small[i/(ns*ns)], small[(i/ns)%ns], small[i%ns]})
 		}}
 	spaces := []core.Space{pairs, triples}
+	if tier == "thorough" {
+		// (all 130 M pairs of 5-node trees would take hours: the fifth node is explored on one side)
+		big, lil := c15Trees(5), c15Trees(3)
+		nb, nl5 := int64(len(big)), int64(len(lil))
+		spaces = append(spaces, core.Space{Name: "pairs-5-nodes-with-3-nodes-both-orders", N: nb * nl5,
+			Desc: func(i int64) any { return []any{big[i/nl5], lil[i%nl5]} },
+			Run: func(c *core.Ctx, i int64) {
+				c16Check(c, []any{big[i/nl5], lil[i%nl5]})
+				c16Check(c, []any{lil[i%nl5], big[i/nl5]})
+			}})
+	}
 	// lists with repeated entries
 	entries := []any{1, 2, map[string]any{"a": 1}, map[string]any{"a": 1, "b": 2}}
 	var lists []any
@@ -435,7 +446,7 @@ func buildC16(tier string) *core.Plan {
 		}})
 	return &core.Plan{
 		Spaces: spaces,
-		Rule:   "every ordered pair of map-rooted, null-free, $-free trees up to N nodes (both argument orders are in the product), every triple up to 3 nodes, (thorough) every quadruple up to 2 nodes, list pairs with repeated and subset entries; CLI migrate workflow (bkli, bkld, bkl with filename inheritance) in format mixes",
+		Rule:   "every ordered pair of map-rooted, null-free, $-free trees up to 4 nodes (both argument orders are in the product; thorough: also every tree up to 5 nodes with every tree up to 3 nodes, in both orders), every triple up to 3 nodes, (thorough) every quadruple up to 2 nodes, list pairs with repeated and subset entries; CLI migrate workflow (bkli, bkld, bkl with filename inheritance) in format mixes",
 		Assumptions: []string{"commonality/maximality are checked structurally: map keys = keys present in all inputs, list entries = multiset minimum over inputs (order not judged), differing scalars or kinds = $required",
 			"in-process runs use cmd/bkli/intersect.go and cmd/bkld/diff.go copied from /repo's working tree at build time"},
 		Bounds: map[string]any{"pair_nodes": n, "triple_nodes": n3},
